@@ -408,11 +408,11 @@ Proof.
 Qed.
 
 (** ---- [clap_complete::aot::generate] as a whole; the lookup ---- *)
-(** total: whenever [Command::build] succeeds the generator writes a script *)
-Theorem elvish_generate_total c bin b t :
-  build (set_bin_name c bin) = Some b -> exists s, generate_elvish c t bin = Some s.
+(** total: for EVERY command tree, texts and bin name the generator writes a script ([build] never runs out of fuel) *)
+Theorem elvish_generate_total c bin t : exists s, generate_elvish c t bin = Some s.
 Proof.
-  intros Hb. unfold generate_elvish. rewrite Hb. destruct (tbuild_total _ b t Hb) as [tb ->].
+  destruct (build (set_bin_name c bin)) as [b|] eqn:Hb; [|exfalso; exact (build_total _ Hb)].
+  unfold generate_elvish. rewrite Hb. destruct (tbuild_total _ b t Hb) as [tb ->].
   apply (generate_total _ b tb Hb). rewrite (build_root_bin c bin b Hb). discriminate.
 Qed.
 
